@@ -99,14 +99,14 @@ pub fn keys_id(k: &SessionKeys) -> String {
 pub fn descr_hs(dg: &[u8]) -> Vec<String> {
     parse_records(dg).iter().map(|r| {
         if r.ctype == 23 || r.ctype == 21 {
-            if r.epoch > 0 { format!("{}.{}.{}.{}", r.ctype, r.epoch, r.seq, r.body.len() as i64 - 24) }
+            if r.epoch > 0 { format!("{}.{}.{}.{}{}", r.ctype, r.epoch, r.seq, r.body.len() as i64 - 24, nonce_tag(r)) }
             else { format!("{}.{}.{}.{}", r.ctype, r.epoch, r.seq, r.body.len()) }
         } else if r.ctype == 22 && r.epoch == 0 {
             match parse_hs(&r.body).first() {
                 Some(m) => format!("22.{}.{}:{}.{}.{}", r.epoch, r.seq, m.typ, m.seq, m.body.len()),
                 None => format!("22.{}.{}:?", r.epoch, r.seq),
             }
-        } else { format!("{}.{}.{}", r.ctype, r.epoch, r.seq) }
+        } else { format!("{}.{}.{}{}", r.ctype, r.epoch, r.seq, nonce_tag(r)) }
     }).collect()
 }
 
@@ -148,7 +148,7 @@ impl Recd {
     fn obs(&mut self, sent: &[Vec<u8>]) -> String {
         let j = |v: Vec<String>| if v.is_empty() { "-".to_string() } else { v.join("+") };
         let delivered = self.ep.drain_app();
-        format!("{},{},{},{}", self.ep.letter(), !self.ep.done as u8, j(delivered.iter().map(|d| hex(d)).collect()),
+        format!("{},{},{},{}", self.ep.state_text(), !self.ep.done as u8, j(delivered.iter().map(|d| hex(d)).collect()),
             j(sent.iter().flat_map(|d| descr_hs(d)).collect()))
     }
 
